@@ -24,7 +24,11 @@ def run_jobs(modname, func, jobs, timeout=600, nproc=None, shims=(), env=None):
         outp = os.path.join(wd, "result.json")
         e = boot.child_env(env, shims)
         e.update(job.get("env") or {})       # per-job environment (e.g. another PYTHONHASHSEED)
-        e["VF_JOB"] = json.dumps(job)
+        # the job travels in a file: one environment string is limited to 128 kB, a thorough-tier job can be larger
+        with open(os.path.join(wd, "job.json"), "w") as f:
+            json.dump(job, f)
+        e["VF_JOB_FILE"] = os.path.join(wd, "job.json")
+        e.pop("VF_JOB", None)
         e["VF_OUT"] = outp
         try:
             # job["pyflags"]: interpreter options of the worker (e.g. ["-O"]); children it starts inherit them via boot.pyflags()
@@ -46,7 +50,11 @@ def run_jobs(modname, func, jobs, timeout=600, nproc=None, shims=(), env=None):
 
 if __name__ == "__main__":
     modname, func = sys.argv[1:3]
-    job = json.loads(os.environ["VF_JOB"])
+    if os.environ.get("VF_JOB_FILE"):
+        with open(os.environ["VF_JOB_FILE"]) as f:
+            job = json.load(f)
+    else:
+        job = json.loads(os.environ["VF_JOB"])
     boot.paths()
     cov = None
     if os.environ.get("VF_COVERAGE"):
